@@ -52,6 +52,8 @@ def cases(tier, seed):
         yield {"kind": "shared_dict", "idx": i, "seed": seed}
     for i in range(60 if tier == "quick" else 1500):  # look-ups interleaved with repositories added later
         yield {"kind": "resolve_history", "idx": i, "seed": seed}
+    for i in range(40 if tier == "quick" else 600):  # clusters listed under a name other than their own, all source forms
+        yield {"kind": "listed", "idx": i, "seed": seed}
     for i in range(256):  # which options the configuration has x which options are given explicitly
         yield {"kind": "override", "idx": i, "seed": seed, "cfg_mask": i >> 4, "arg_mask": i & 15}
         if i & 15:  # ... and the same with explicit values that switch the option off
@@ -376,6 +378,74 @@ def run_resolve_history(case, out, fail, sc):
     out["sample"] = {"history": trace}
 
 
+def run_listed(case, out, fail, sc):
+    """A repository defines a cluster under the name it LISTS it under (the key of its `clusters` mapping); the `name`
+    written inside the cluster's own configuration may differ (one cluster file referenced under two names, a
+    high-priority repository re-pointing a name). Repositories given as constructor arguments, inline dictionaries,
+    JSON files and YAML templates, and the environment rebuilt from the dump, must resolve every name alike."""
+    import twosigma.memento as m
+    import yaml
+
+    rng = core.rng_for(case["seed"], ID, "listed", case["idx"])
+    pool = ["A", "B", "A.legacy", "shared", "team.a"]
+    specs = []  # per repository: {listed name: (own name, storage path)}
+    for i in range(rng.randint(1, 3)):
+        listed = {}
+        for key in rng.sample(pool, rng.randint(1, 3)):
+            own = key if rng.random() < 0.4 else rng.choice(pool)
+            listed[key] = (own, sc.path("r%d_%s" % (i, key)))
+        specs.append(listed)
+    form = ["ctor", "inline", "json", "yaml"][case["idx"] % 4]
+    os.makedirs(sc.path("cfg"), exist_ok=True)
+
+    def cluster_cfg(own, path):
+        return {"name": own, "storage": {"type": "filesystem", "path": path}}
+
+    repos = []
+    for i, listed in enumerate(specs):
+        if form == "ctor":
+            repos.append(m.ConfigurationRepository(name="r%d" % i, clusters={
+                key: m.FunctionCluster(name=own, storage=env.fs_backend(path)) for key, (own, path) in listed.items()}))
+            continue
+        clusters = {}
+        for key, (own, path) in listed.items():
+            if form != "inline" and rng.random() < 0.5:  # the cluster in a file of its own
+                fn = sc.path("cfg", "r%d_%s.json" % (i, key.replace(".", "_")))
+                with open(fn, "w") as f:
+                    json.dump(cluster_cfg(own, path), f)
+                clusters[key] = fn
+            else:
+                clusters[key] = cluster_cfg(own, path)
+        cfg = {"name": "r%d" % i, "clusters": clusters}
+        if form == "inline":
+            repos.append(m.ConfigurationRepository(cfg))
+        else:
+            fn = sc.path("cfg", "repo%d.%s" % (i, "json" if form == "json" else "yaml"))
+            with open(fn, "w") as f:
+                (json.dump if form == "json" else yaml.safe_dump)(cfg, f)
+            repos.append(m.ConfigurationRepository(m.configuration._load_config(sc.path("cfg"), fn)) if rng.random() < 0.5
+                         else fn)
+    if any(isinstance(r, str) for r in repos):
+        e = m.Environment({"name": "e", "base_dir": sc.path("base"),
+                           "repos": [r if isinstance(r, str) else r.to_dict() for r in repos]})
+    else:
+        e = m.Environment(name="e", base_dir=sc.path("base"), repos=repos)
+    e2 = m.Environment(json.loads(json.dumps(e.to_dict())))
+    label = "repositories (%s) %s" % (form, [{k: v[0] for k, v in listed.items()} for listed in specs])
+    for name in pool + ["nowhere"]:
+        want = next((listed[name][1] for listed in specs if name in listed), None)
+        for which, ee in (("", e), (" rebuilt from its dump", e2)):
+            got = ee.get_cluster(name)
+            got_path = got and got.storage.config_path
+            out["obs"]["resolutions_checked"] += 1
+            out["obs"]["resolutions_of_listed_names"] += 1
+            if (got is None) != (want is None) or (want is not None and os.path.realpath(str(got_path)) != os.path.realpath(want)):
+                fail("a cluster name does not resolve to the first repository in priority order that defines it"
+                     if not which else "dump of an environment changes which repository defines a cluster",
+                     "%s: name %r in the environment%s resolves to %s, expected %s" % (label, name, which, got_path, want))
+    out["sample"] = {"listed": label}
+
+
 def run_shared_dict(case, out, fail, sc):
     """One configuration dictionary object is handed to several constructors, some with explicit arguments: every
     backend behaves as the configuration the caller wrote + its own arguments say."""
@@ -500,6 +570,8 @@ def run_case(case):
             run_order(case, out, fail, sc)
         elif case["kind"] == "shared_dict":
             run_shared_dict(case, out, fail, sc)
+        elif case["kind"] == "listed":
+            run_listed(case, out, fail, sc)
         elif case["kind"] == "resolve_history":
             run_resolve_history(case, out, fail, sc)
         else:
@@ -512,5 +584,5 @@ def run_case(case):
 
 def conclude(agg):
     return core.first(core.need(agg, "vectors_compared", 150), core.need(agg, "dump_vectors_compared", 30),
-                      core.need(agg, "resolutions_checked", 100), core.need(agg, "resolutions_in_histories", 100), core.need(agg, "backends_built_from_a_shared_dictionary", 40), core.need(agg, "override_vectors_compared", 200), core.need(agg, "override_dump_vectors_compared", 200),
+                      core.need(agg, "resolutions_checked", 100), core.need(agg, "resolutions_in_histories", 100), core.need(agg, "resolutions_of_listed_names", 100), core.need(agg, "backends_built_from_a_shared_dictionary", 40), core.need(agg, "override_vectors_compared", 200), core.need(agg, "override_dump_vectors_compared", 200),
                       core.need(agg, "runner_behaviours_checked", 100)), {"exhaustive": True}
